@@ -5,16 +5,23 @@
    dl, dr: the text left and right of the occurrence on its line — any strings of neutral delimiters
    (space, quotes, brackets, '/', ':', ',', ';', '=', '<', '>', tab; C06_standalone_ctx: any bytes that are
    neither alphanumeric nor '-' nor '_', which adds '.', newline and the empty context).
-   NOT modelled: the tail of scanner.rs::generate_hunks (ambiguity re-resolution, separator coercion) — its
-   effect on these occurrences is decided on the real CLI by lib/props/c06.py. *)
+   Second clause (ambiguous occurrences): can_match_style is the model of case_constraints.rs (Model/Constraints.v
+   over the per-style table translated from the source, Gen/GenConstraints.v; tied differentially).  The ambiguity
+   resolver's contract — checked on the real resolver by lib/props/c06.py — is that it only returns a style the
+   matched text can have; the theorems say that EVERY such style keeps the first letter's case and keeps an
+   all-upper-case match upper case.
+   NOT modelled: the tail of scanner.rs::generate_hunks (which heuristic the resolver uses, separator coercion) —
+   its effect on these occurrences is decided on the real CLI by lib/props/c06.py. *)
 From RN Require Import Base.Bytes Model.StyleDef Model.CaseModel Model.CaseSpec Model.Matcher.
-From RN Require Import Proofs.StandaloneP.
+From RN Require Import Model.ConstraintsDef Model.Constraints.
+From RN Require Import Proofs.StandaloneP Proofs.ConstraintsP.
+Close Scope N_scope.   (* ConstraintsP opens it; the statements below count in nat *)
 
 (* an occurrence in an enabled visible style is the single match, passes the boundary test, and is mapped
    to the replacement written in that same style *)
 Theorem C06_standalone : forall acr defaults amb S0 S1 S sw rw styles dl dr,
   wf_acr acr = true -> visible S0 = true -> visible S1 = true -> visible S = true ->
-  (2 <= length sw) -> rw <> [] -> all_neutral acr sw = true -> all_neutral acr rw = true ->
+  (2 <= length sw)%nat -> rw <> [] -> all_neutral acr sw = true -> all_neutral acr rw = true ->
   In S styles -> delims dl = true -> delims dr = true ->
   let vm := variant_map_core acr defaults [] [] false amb (to_style acr sw S0) (to_style acr rw S1)
               (Some styles) in
@@ -31,7 +38,7 @@ Proof. exact StandaloneP.C06_standalone. Qed.
 (* an occurrence in a style the user disabled is not matched at all *)
 Theorem C06_disabled_untouched : forall acr defaults amb S0 S1 S sw rw styles dl dr,
   wf_acr acr = true -> visible S0 = true -> visible S1 = true -> visible S = true ->
-  (2 <= length sw) -> rw <> [] -> all_neutral acr sw = true -> all_neutral acr rw = true ->
+  (2 <= length sw)%nat -> rw <> [] -> all_neutral acr sw = true -> all_neutral acr rw = true ->
   ~ In S styles -> noalpha dl = true -> noalpha dr = true ->
   let vm := variant_map_core acr defaults [] [] false amb (to_style acr sw S0) (to_style acr rw S1)
               (Some styles) in
@@ -56,7 +63,47 @@ Theorem C06_boundary_any_context : forall occ dl dr,
   is_boundary (dl ++ occ ++ dr) (length dl) (length dl + length occ) = true.
 Proof. exact StandaloneP.standalone_boundary. Qed.
 
+(* --- second clause: whatever compatible style is chosen for an ambiguous occurrence ------------------- *)
+(* the first letter keeps its case *)
+Theorem C06_first_upper_kept : forall acr text S rw,
+  can_match_style acr text S = true ->
+  (exists c rest, text = c :: rest /\ is_upper c = true) ->
+  all_neutral acr rw = true -> rw <> [] ->
+  exists c' rest', to_style acr rw S = c' :: rest' /\ is_upper c' = true.
+Proof. exact ConstraintsP.compatible_first_upper. Qed.
+
+Theorem C06_first_lower_kept : forall acr text S rw,
+  can_match_style acr text S = true ->
+  (exists c rest, text = c :: rest /\ is_lower c = true) ->
+  all_neutral acr rw = true -> rw <> [] ->
+  exists c' rest', to_style acr rw S = c' :: rest' /\ is_lower c' = true.
+Proof. exact ConstraintsP.compatible_first_lower. Qed.
+
+(* an all-upper-case match (two leading upper-case letters, not excused by the acronym table) stays all upper case *)
+Theorem C06_all_upper_kept : forall acr text S rw c1 c2 rest,
+  can_match_style acr text S = true ->
+  existsb is_lower text = false ->
+  text = c1 :: c2 :: rest -> is_upper c1 = true -> is_upper c2 = true ->
+  acr_excused acr text = false ->
+  all_neutral acr rw = true ->
+  existsb is_lower (to_style acr rw S) = false /\
+  (rw <> [] -> existsb is_upper (to_style acr rw S) = true).
+Proof. exact ConstraintsP.all_upper_stays_upper. Qed.
+
+(* and the only styles such a text is compatible with are the four upper-case styles *)
+Theorem C06_all_upper_styles : forall acr text S c1 c2 rest,
+  can_match_style acr text S = true ->
+  existsb is_lower text = false ->
+  text = c1 :: c2 :: rest -> is_upper c1 = true -> is_upper c2 = true ->
+  acr_excused acr text = false ->
+  upper_style S = true.
+Proof. exact ConstraintsP.compatible_all_upper. Qed.
+
 Print Assumptions C06_standalone.
+Print Assumptions C06_first_upper_kept.
+Print Assumptions C06_first_lower_kept.
+Print Assumptions C06_all_upper_kept.
+Print Assumptions C06_all_upper_styles.
 Print Assumptions C06_disabled_untouched.
 Print Assumptions C06_none_left.
 Print Assumptions C06_boundary_any_context.
